@@ -167,10 +167,19 @@ func (p *pkg) callArgsIn(root ast.Node, recv, fn string) []ast.Expr {
 
 func genMerkle() {
 	p := repoPkg("pkg/merkle")
-	g := newGen("Merkle")
+	g := newGenHdr("Merkle", loopHeaderText+flowHeaderText+recvHeaderText+callHeaderText+recHeaderText, "Iota.Model.GoBits")
 	g.def("leafHashPrefix", "Int", p.intConst("LeafHashPrefix"))
 	g.def("nodeHashPrefix", "Int", p.intConst("NodeHashPrefix"))
-	g.src(p, "Hasher.EmptyRoot", "Hasher.Hash", "Hasher.hashLeaf", "Hasher.hashNode", "largestPowerOfTwo")
+	// merkle.go translated as code (callees first; to be tied to the model in Iota/Tie); not pinned by text.  What the
+	// translation does not define is a PARAMETER of the generated functions: hash_sum, the hash function in the field
+	// Hasher.hash as a function from the bytes written to the digest (recHeaderText states the assumptions), and — for the
+	// recursive Hash — the fuel.  An encoding.BinaryMarshaler leaf is the (bytes, error) result of its MarshalBinary().
+	// NewHasher and Size are not translated: they stay in rest_merkle.
+	codeFns := []string{"largestPowerOfTwo", "Hasher.hashNode", "Hasher.hashLeaf", "Hasher.EmptyRoot", "Hasher.Hash"}
+	g.raw(translateLoopFuncsNS(p, "code", codeFns...))
+	for _, n := range codeFns {
+		pinnedFns[p.method(n)] = true
+	}
 	g.rest(p, "merkle")
 	g.write()
 }
